@@ -103,7 +103,7 @@ Take(c) ==
             LET F == Top(stack) IN
             /\ stack' = AfterRet(stack, c.ok, IF c.ok THEN RetValue(F) ELSE UnitRV, NextId)
             /\ idc' = IF c.ok THEN idc ELSE idc + 1
-            /\ fnf' = IF ~c.ok /\ CanFail(F.fnp.k) THEN fnf \cup {[f |-> c.f, loc |-> IF F.fnp.k = "try" THEN F.fnp.loc ELSE F.loc]} ELSE fnf
+            /\ fnf' = IF ~c.ok /\ CanFail(F.fnp.k) THEN fnf \cup {[f |-> c.f, loc |-> IF F.fnp.k = "try" THEN F.fnp.loc ELSE F.loc, j |-> IF F.fnp.k = "try" THEN F.fnp.ob.i ELSE 0]} ELSE fnf
             /\ UNCHANGED <<made, reps, hist, out, phase, stopped, newAfterStop, usedfn>>
       [] c.e = "exit" ->
             LET F == Top(stack)
